@@ -138,7 +138,13 @@ def module_text(case):
         s = dict(case, decos=[case['name'] + '.setter'])
         st = function_text(s, 4)
         body = gt + st
-    out = head + 'class K:\n' + body + 'class Sub(K):\n    pass\n'
+    falsy = (case.get('selfann') or {}).get('falsy')
+    dunder = ''
+    if falsy == 'len':
+        dunder = '    def __len__(self):\n        _pv_len()\n        return 0\n'
+    elif falsy == 'bool':
+        dunder = '    def __bool__(self):\n        _pv_len()\n        return False\n'
+    out = head + 'class K:\n' + dunder + body + 'class Sub(K):\n    pass\n'
     return out
 
 
@@ -212,7 +218,18 @@ class Run:
                 consumed.append(list(k))
         return {'bind': entry, 'consumed': consumed}
 
+    inner_call = None
+    inner_res = None
+
     def body(self, loc):
+        if self.inner_call is not None and self.inner_res is None:
+            # first (outer) invocation: make the call under test from inside the running call, do not journal this one
+            call, self.inner_call = self.inner_call, None
+            self.inner_res = {'out': -1}
+            self.inner_res = call()
+            if self.case['body'][0] == 'ret':
+                return self.result_obj
+            raise self.exc_obj
         self.journal.append(self.snap(loc))
         b = self.case['body']
         if b[0] == 'ret':
@@ -265,6 +282,12 @@ def exc_code(ex):
     return N.exc_code(excs.path_of(type(ex)))
 
 
+def rann(a):
+    """annotation objects; ['selftype'] is typing.Self (outside the abstract syntax of the model)"""
+    import typing
+    return typing.Self if a == ['selftype'] else U.render_ann(a)
+
+
 def run_case(case):
     ctx = U.real_ctx(case['ctx'])
     globals().update(ctx)
@@ -276,7 +299,7 @@ def run_case(case):
     for i, p in enumerate(case['params']):
         r.kinds[p['name']] = p['kind']
         if p['ann'] is not None:
-            extra[f'A{i}'] = U.render_ann(p['ann'])
+            extra[f'A{i}'] = rann(p['ann'])
         if p['default'] is not None:
             d = U.render_val(p['default'])
             extra[f'D{i}'] = d
@@ -284,11 +307,15 @@ def run_case(case):
             if p['default'][0] == 'iter':
                 r.iters[(4, p['name'])] = (d, len(p['default'][1]))
     if case['ret'] is not None:
-        extra['R'] = U.render_ann(case['ret'])
+        extra['R'] = rann(case['ret'])
     if case.get('prop_get_ret') is not None:
         extra['RG'] = U.render_ann(case['prop_get_ret'])
     reified = {}
-    if case['body'][0] == 'ret':
+    r.len_calls = [0]
+    extra['_pv_len'] = lambda: r.len_calls.__setitem__(0, r.len_calls[0] + 1)
+    if case['body'][0] == 'ret' and case['body'][1] == ['recv']:
+        r.result_obj = None          # the receiver itself: set when the receiver exists
+    elif case['body'][0] == 'ret':
         r.result_obj = U.render_val(case['body'][1])
         reified['body'] = ['ret', U.reify_val(r.result_obj, case['body'][1])]
     else:
@@ -327,6 +354,7 @@ def run_case(case):
         target = getattr(K, name)
         if style == 'property':
             target = K.__dict__[name].fset
+        func_obj = target
         try:
             fnr = reify_fn(target, case, K, Sub)
         except Unrepresentable as ex:
@@ -338,6 +366,7 @@ def run_case(case):
     else:
         if len(r.seen) != (2 if case.get('shadow') else 1):
             return {'error': f'{len(r.seen)} functions reached the decorator'}
+        func_obj = r.seen[-1]
         try:
             fnr = reify_fn(r.seen[-1], case, K, Sub)
         except Unrepresentable as ex:
@@ -358,8 +387,11 @@ def run_case(case):
     for kname, v in case['kwargs']:
         if kname == 0 and case.get('self_kw'):
             continue
-        o = U.render_val(v)
-        reified['kwargs'].append([kname, U.reify_val(o, v)])
+        if v == ['recv2']:
+            o = None                 # a second instance of the class: filled in when the class exists
+        else:
+            o = U.render_val(v)
+            reified['kwargs'].append([kname, U.reify_val(o, v)])
         kwargs[N.pname(kname)] = o
         r.objs[(3, kname)] = o
         if v[0] == 'iter':
@@ -369,6 +401,14 @@ def run_case(case):
         k_inst, s_inst = K.__new__(K), Sub.__new__(Sub)
         k_inst._pv_id, s_inst._pv_id = 70, 71
         recv_objs = {'class': K, 'subclass': Sub, 'instance': k_inst, 'sub_instance': s_inst}
+        if case['body'] == ['ret', ['recv']]:
+            r.result_obj = recv_objs[case.get('via') or 'instance']
+        for kname, v in case['kwargs']:
+            if v == ['recv2']:
+                other = K.__new__(K)
+                other._pv_id = 72
+                kwargs[N.pname(kname)] = other
+                r.objs[(3, kname)] = other
         for o, code in ((K, N.obj_code(['class', ['user', [5]]])), (Sub, N.obj_code(['class', ['user', [5, 0]]])),
                         (k_inst, N.obj_code(['inst', [5], 70])), (s_inst, N.obj_code(['inst', [5, 0], 71]))):
             r.objs[(1, code)] = o
@@ -390,43 +430,85 @@ def run_case(case):
             mod._pv_shadow(*[U.render_val(v) for v in case['shadow']['args']])
         except BaseException:      # noqa
             pass
-    try:
-        if style == 'property':
-            inst = recv_objs[via]
-            setattr(inst, name, args[0])
-            out = None
-            produced = None
-        else:
-            f = target_callable()
-            pos = list(args)
-            if case.get('explicit_self'):
-                pos = [recv_objs['instance']] + pos
-            out = f(*pos, **kwargs)
-            if case['async'] and inspect.iscoroutine(out):
-                co = out
-                try:
-                    co.send(None)
-                    co.close()
-                    raise RuntimeError('scripted coroutine suspended')
-                except StopIteration as stop:
-                    out = stop.value
-        res['out'] = 0
-        if case['gen']:
-            res['wrapper_type'] = type(out).__name__
-            if case.get('drive') == 'yield_from':
-                def _pv_outer(inner):
-                    result = yield from inner
-                    return result
-                out = _pv_outer(out)
-            op_results = run_ops(r, out, case)
-        elif case['body'][0] == 'ret' and style != 'property':
-            res['same_object'] = out is r.result_obj
-        elif style == 'property':
-            res['same_object'] = True
-    except BaseException as ex:
-        res['out'] = exc_code(ex)
-        res['exc'] = type(ex).__name__ + ': ' + str(ex)[:150].replace('\n', ' ')
-        res['same_object'] = (case['body'][0] == 'raise' and not case['gen'] and ex is r.exc_obj)
+
+    def call_with(pos_args, kw):
+        f = target_callable()
+        pos = list(pos_args)
+        if case.get('explicit_self'):
+            pos = [recv_objs['instance']] + pos
+        out = f(*pos, **kw)
+        if case['async'] and inspect.iscoroutine(out):
+            co = out
+            try:
+                co.send(None)
+                co.close()
+                raise RuntimeError('scripted coroutine suspended')
+            except StopIteration as stop:
+                out = stop.value
+        return out
+
+    hist = case.get('history')
+    if hist:
+        # earlier calls on the SAME decorated callable, then a default object is mutated in place; the function is reified
+        # afterwards: the model and the oracle see the defaults as they are at the call under test
+        for pre in hist.get('pre', []):
+            try:
+                call_with([], {N.pname(k): U.render_val(v) for k, v in pre})
+            except BaseException:      # noqa
+                pass
+        mu = hist.get('mutate')
+        if mu:
+            for i, p in enumerate(case['params']):
+                if p['name'] == mu['name']:
+                    extra[f'D{i}'].append(U.render_val(mu['append']))
+        r.journal.clear()
+        try:
+            res['fn'] = reify_fn(func_obj, case, K, Sub)
+        except Unrepresentable as ex:
+            return {'skip': str(ex)}
+
+    def do_call():
+        out_res = {}
+        nonlocal op_results
+        try:
+            if style == 'property':
+                inst = recv_objs[via]
+                setattr(inst, name, args[0])
+                out = None
+            else:
+                out = call_with(args, kwargs)
+            out_res['out'] = 0
+            if case['gen']:
+                out_res['wrapper_type'] = type(out).__name__
+                if case.get('drive') == 'yield_from':
+                    def _pv_outer(inner):
+                        result = yield from inner
+                        return result
+                    out = _pv_outer(out)
+                op_results = run_ops(r, out, case)
+            elif case['body'][0] == 'ret' and style != 'property':
+                out_res['same_object'] = out is r.result_obj
+            elif style == 'property':
+                out_res['same_object'] = True
+        except BaseException as ex:
+            out_res['out'] = exc_code(ex)
+            out_res['exc'] = type(ex).__name__ + ': ' + str(ex)[:150].replace('\n', ' ')
+            out_res['same_object'] = (case['body'][0] == 'raise' and not case['gen'] and ex is r.exc_obj)
+        return out_res
+
+    if case.get('inside'):
+        # the call under test is made while a (conforming keyword) call of the same callable is running
+        r.inner_call = do_call
+        try:
+            call_with([], {N.pname(k): U.render_val(v) for k, v in case['inside']['kwargs']})
+        except BaseException:      # noqa
+            pass
+        if r.inner_res is None:
+            return {'skip': 'the outer call did not reach the body'}
+        res.update(r.inner_res)
+    else:
+        res.update(do_call())
+    res['len_calls'] = r.len_calls[0]
     res['journal'] = r.journal
     if op_results is not None:
         reified['ops'] = [['send', r.op_reified[k]] if (o[0] == 'send' and k in r.op_reified) else o for k, o in enumerate(case['ops'][:40])]
